@@ -168,3 +168,82 @@ def test_c08_block_after_two_images_is_kept_by_tabularize_images():
     f1, f2, block = F(), F(), object()
     out = w.tabularizeImages([f1, f2, block])
     assert block in out and len(out) == 2, out
+
+
+# ---------------------------------------------------------------- wave 5 findings
+def _parse(raw, pages=None):
+    from mwlib.parser.refine import uparser
+    from mc.props.c01 import LangDB
+    return uparser.parse_string(title="T", raw=raw, wikidb=LangDB("en", pages or {}), lang="en")
+
+
+def _text(tree):
+    return "".join(n.caption or "" for n in tree.allchildren() if n.__class__.__name__ == "Text")
+
+
+def test_c09_stray_ampersand_does_not_block_the_next_entity():
+    assert _text(_parse("<nowiki>&amp &lt;</nowiki>")) == "&amp <"
+
+
+@pytest.mark.parametrize("fn", ["uc", "lc"])
+def test_c09_case_functions_keep_protected_regions(fn):
+    assert "''a''" in _text(_parse("{{%s:x<nowiki>''a''</nowiki>y}}" % fn))
+
+
+def test_c13_null_field_is_a_fixed_point():
+    from mwlib.utils import myjson
+    from mwlib.core import nserve
+    x = '{"type":"collection","summary":null,"items":[{"type":"article","title":"A","content_type":null}]}'
+    d1 = myjson.loads(x).dumps()
+    assert myjson.loads(d1).dumps() == d1
+    assert nserve.make_collection_id({"metabook": x}) == nserve.make_collection_id({"metabook": d1})
+
+
+def test_c14_title_starting_with_sharp_s_keeps_its_first_letter():
+    from mwlib.core import nshandling
+    from mwlib.network.siteinfo import get_siteinfo
+    h = nshandling.NsHandler(get_siteinfo("en"))
+    assert h.splitname("ßeta", 0) == (0, "ßeta", "ßeta")
+
+
+def test_c01_big_imagemap_coordinate_and_page_range_parse():
+    _parse("<imagemap>\nImage:A.png\ncircle 1 2 " + "9" * 5000 + " [[a]]\n</imagemap>")
+    _parse("<pages index=a from=1 to=9999999/>")
+
+
+def test_c07_named_reference_used_before_its_definition_keeps_its_text():
+    from mwlib.parser import advtree, treecleaner
+    t = _parse('a<ref name="x"/> b<ref name="x">the text</ref>')
+    advtree.build_advanced_tree(t)
+    treecleaner.TreeCleaner(t).clean_all()
+    assert "the text" in _text(t)
+
+
+def test_c07_caption_of_a_dissolved_single_column_table_is_kept():
+    from mwlib.parser import advtree, treecleaner
+    t = _parse("{|\n|+ onecap\n|-\n| single\n|}\n")
+    advtree.build_advanced_tree(t)
+    treecleaner.TreeCleaner(t).clean_all()
+    assert "onecap" in _text(t) and "single" in _text(t)
+
+
+@pytest.mark.parametrize("text,want", [("{{#ifeq:1_0|10|y|n}}", "n"), ("{{#ifeq:inf|infinity|y|n}}", "n"), ("{{#ifeq:nan|nan|y|n}}", "y"),
+                                        ("{{#ifeq:1e1|10|y|n}}", "y"), ("{{#switch:x|#default=d|e}}", "e"), ("{{#switch:x|#default=d|#default=e}}", "e")])
+def test_c04_numeric_strings_and_switch_defaults_follow_mediawiki(text, want):
+    assert _expand(text) == want
+
+
+def test_c16_client_chosen_integer_id_is_not_handed_out_again():
+    from qs import jobs
+    wq = jobs.workq()
+    assert wq.push("a", jobid=2) == 2
+    other = wq.push("a")
+    assert other != 2 and len(wq.id2job) == 2
+
+
+def test_c06_huge_colspan_is_clamped():
+    from mwlib.parser import advtree
+    t = _parse('{|\n|-\n| colspan="300000000" | a\n| b\n|}\n')
+    advtree.build_advanced_tree(t)
+    table = [n for n in t.allchildren() if n.__class__.__name__ == "Table"][0]
+    assert table.numcols <= 1001
